@@ -178,6 +178,21 @@ func main() {
 	}
 }
 
+// altTag names the scratch tree of a VERIF_REPO run ("" for /repo): scratch runs keep their binary, module file,
+// statistics, evidence and replays apart, so that they can run beside a run on /repo itself.
+func altTag() string {
+	alt := os.Getenv("VERIF_REPO")
+	if alt == "" {
+		return ""
+	}
+	return "-alt-" + strings.Map(func(r rune) rune {
+		if r == '/' || r == ' ' {
+			return '_'
+		}
+		return r
+	}, strings.Trim(alt, "/"))
+}
+
 func build(id string, c checkCfg) (string, error) {
 	_ = os.MkdirAll(filepath.Join(root, "bin"), 0o755)
 	out := filepath.Join(root, "bin", strings.ToLower(id)+".test")
@@ -189,14 +204,14 @@ func build(id string, c checkCfg) (string, error) {
 		if err != nil {
 			return "", err
 		}
-		mf := filepath.Join(root, "bin", "alt-"+strings.ToLower(id)+".mod")
+		mf := filepath.Join(root, "bin", strings.ToLower(id)+altTag()+".mod")
 		nb := strings.Replace(string(b), "=> /repo", "=> "+alt, 1)
 		if err := os.WriteFile(mf, []byte(nb), 0o644); err != nil {
 			return "", err
 		}
 		sum, _ := os.ReadFile(filepath.Join(root, "go.sum"))
 		_ = os.WriteFile(strings.TrimSuffix(mf, ".mod")+".sum", sum, 0o644)
-		out = filepath.Join(root, "bin", "alt-"+strings.ToLower(id)+".test")
+		out = filepath.Join(root, "bin", strings.ToLower(id)+altTag()+".test")
 		args = []string{"test", "-c", "-tags", "verif", "-vet=off", "-modfile", mf, "-o", out}
 	}
 	if c.Race {
@@ -387,13 +402,16 @@ func run(id, tier string) int {
 	if err != nil {
 		fatal2("%v", err)
 	}
-	tmp := filepath.Join(root, "evidence", "tmp", id)
+	tmp := filepath.Join(root, "evidence", "tmp", id+altTag())
 	_ = os.RemoveAll(tmp)
 	statsDir := filepath.Join(tmp, "stats")
 	curDir := filepath.Join(tmp, "current")
 	_ = os.MkdirAll(statsDir, 0o755)
 	_ = os.MkdirAll(curDir, 0o755)
 	replayDir := filepath.Join(root, "evidence", "replay")
+	if altTag() != "" {
+		replayDir = filepath.Join(root, "evidence", "replay", strings.TrimPrefix(altTag(), "-"))
+	}
 	_ = os.MkdirAll(replayDir, 0o755)
 	if old, _ := filepath.Glob(filepath.Join(replayDir, fmt.Sprintf("%s-*-s%d-*", id, seed))); len(old) > 0 {
 		for _, f := range old {
@@ -708,7 +726,7 @@ func run(id, tier string) int {
 	_ = os.MkdirAll(filepath.Join(root, "evidence"), 0o755)
 	if os.Getenv("VERIF_REPO") != "" {
 		// a run against a scratch tree (seeded change, mutant) must not replace the record of /repo's own run
-		_ = os.WriteFile(filepath.Join(root, "evidence", "tmp", id+"-alt-evidence.json"), eb, 0o644)
+		_ = os.WriteFile(filepath.Join(root, "evidence", "tmp", id+altTag()+"-evidence.json"), eb, 0o644)
 	} else {
 		_ = os.WriteFile(filepath.Join(root, "evidence", id+".json"), eb, 0o644)
 	}
@@ -794,12 +812,12 @@ func fuzzSig(out string) string {
 func runFuzz(id string, c checkCfg, ft fuzzTarget) (execs int64, crash string, out string, err error) {
 	ctx, cancel := context.WithTimeout(context.Background(), time.Duration(ft.Seconds+240)*time.Second)
 	defer cancel()
-	cacheDir := filepath.Join(root, "evidence", "tmp", id, "fuzzcache")
+	cacheDir := filepath.Join(root, "evidence", "tmp", id+altTag(), "fuzzcache")
 	_ = os.MkdirAll(cacheDir, 0o755)
 	args := []string{"test", "-tags", "verif", "-vet=off"}
 	if alt := os.Getenv("VERIF_REPO"); alt != "" {
 		// build() has written the alternative go.mod for this check
-		args = append(args, "-modfile", filepath.Join(root, "bin", "alt-"+strings.ToLower(id)+".mod"))
+		args = append(args, "-modfile", filepath.Join(root, "bin", strings.ToLower(id)+altTag()+".mod"))
 	}
 	// the package must precede -test.fuzzcachedir: that is a test-binary flag and ends go's own flag parsing
 	args = append(args, "-run", "^$", "-fuzz", "^"+ft.Target+"$", "-fuzztime", strconv.Itoa(ft.Seconds)+"s", c.Pkg, "-test.fuzzcachedir", cacheDir)
